@@ -40,14 +40,21 @@ type cluster struct {
 	bn   *fakebn.BN
 }
 
-var clusterCache = map[int]*cluster{}
+var clusterCache = map[[2]int]*cluster{}
 
-// newCluster builds (once per node count) a cluster with three validators.
-func newCluster(n int) *cluster {
-	if c, ok := clusterCache[n]; ok {
+// newCluster builds (once per node count and fork schedule) a cluster with three validators. genesisForks selects
+// the schedule in which the first forks are all active from genesis (as test networks start).
+func newCluster(n int, genesisForks bool) *cluster {
+	ck := [2]int{n, 0}
+	bn := fakebn.New()
+	if genesisForks {
+		ck[1] = 1
+		bn = fakebn.NewGenesisForks(4)
+	}
+	if c, ok := clusterCache[ck]; ok {
 		return c
 	}
-	c := &cluster{n: n, t: (2*n + 2) / 3, bn: fakebn.New()}
+	c := &cluster{n: n, t: (2*n + 2) / 3, bn: bn}
 	active := map[eth2p0.ValidatorIndex]eth2p0.BLSPubKey{}
 	for v := 0; v < 3; v++ {
 		secret, err := tbls.GenerateSecretKey()
@@ -67,7 +74,7 @@ func newCluster(n int) *cluster {
 		active[val.index] = eth2p0.BLSPubKey(val.group)
 	}
 	c.bn.SetValidators(active)
-	clusterCache[n] = c
+	clusterCache[ck] = c
 	return c
 }
 
@@ -89,14 +96,14 @@ func must(err error) {
 type submission struct {
 	endpoint string
 	duty     core.DutyType
-	api      any                                      // what the leaf walker alters
-	coreView func() (core.SignedData, error)          // the signed object as charon will see it
-	who      func() (eth2p0.ValidatorIndex, bool)     // validator index the submission names (if it names one)
-	sig      func() *eth2p0.BLSSignature              // where the partial signature lives
-	call     func(c *validatorapi.Component) error    // performs the call
+	api      any                                                        // what the leaf walker alters
+	coreView func() (core.SignedData, error)                            // the signed object as charon will see it
+	who      func() (eth2p0.ValidatorIndex, bool)                       // validator index the submission names (if it names one)
+	sig      func() *eth2p0.BLSSignature                                // where the partial signature lives
+	call     func(c *validatorapi.Component) error                      // performs the call
 	batch    func(c *validatorapi.Component, items []*submission) error // list endpoints: one call carrying several submissions (nil for single-object endpoints)
-	install  func(w *wiring)                          // registers what the component queries
-	resign   func(key tbls.PrivateKey, bn *fakebn.BN) // re-signs the current content
+	install  func(w *wiring)                                            // registers what the component queries
+	resign   func(key tbls.PrivateKey, bn *fakebn.BN)                   // re-signs the current content
 }
 
 // wiring is what the component's Register* functions answer from.
